@@ -43,11 +43,18 @@ Fixes(A, k) == MVec(A.num, k) = VScale(A.den, k)                    \* A k = k
 
 JLat == { h \in HCoarse : nOf(h) # 0 /\ QNorm(h) <= 9 } \cup { QOf(m, v) : m \in {8, 31, 32, 33}, v \in {<<1,0,0>>, <<1,2,2>>} }
 JSmallOK(h) == QNorm(h) <= 2000
+(* "for every x with rotation angle below 2 pi": the last hundredths of a radian before the full turn, where the inverse
+   Jacobians grow like 1/(2 pi - theta) (theta = 2 pi - 2 atan(|v|/m) = 2 pi - 0.02 .. 0.033) *)
+JNearTurn == { <<-100,1,0,0>>, <<-60,0,0,1>>, <<-200,1,2,2>>, <<-300,-1,1,1>> }
+(* "arbitrary translational parts": the coupling blocks Q of the se(3) / se_2(3) Jacobians and of their inverses are LINEAR
+   in the translational part (the dexp equations are, block by block), so J(s rho, w) has the diagonal blocks of J(rho, w)
+   and s times its coupling blocks; the harness evaluates every general vector a second time with s = 4e-7 (micrometres
+   expressed in metres) and compares the coupling blocks divided by s. *)
 GQ == IF Thorough THEN { q \in QLat(2) : Primitive(q) } ELSE QLat(1) \cup { <<2,1,0,-1>>, <<-2,0,1,1>>, <<1,-2,2,0>>, <<0,1,2,-2>> }
 GW == { <<1,0,0>>, <<0,1,0>>, <<0,0,1>>, <<1,-2,2>>, <<-3,1,1>> }
 
 InitJ == /\ dummy = 0
-         /\ \/ \E h \in HAll \ HNearPole : nOf(h) # 0 /\ tv = [op |-> "seedj", h |-> h]      \* (near-pole quaternions: 32-bit)
+         /\ \/ \E h \in (HAll \ HNearPole) \cup JNearTurn : nOf(h) # 0 /\ tv = [op |-> "seedj", h |-> h]      \* (near-pole quaternions: 32-bit)
             \/ \E q \in GQ : tv = [op |-> "seedg", q |-> q]
             \/ tv = [op |-> "seedz"]
 NextJ == UNCHANGED dummy /\
